@@ -27,6 +27,13 @@ type Result struct {
 	// or -1 if the end of input was reached.
 	FailAt  int
 	FailPos int // character offset where the inadmissible token would start
+	// FailChar is the character offset of the first character that rules the token out (the
+	// character no token can start with, the invalid character inside a string, the line
+	// terminator or end of input that leaves a string open, the character after a number …)
+	FailChar int
+	FailEsc  int // offset of the backslash when the failure lies in an escape sequence, else -1
+	// LineOf / ColOf: 1-based line and column of every character offset (0 … NChars)
+	LineOf, ColOf []int
 	// Undecided: the input uses something the oracle does not take a side on (invalid
 	// UTF-8, \uD800–\uDFFF escapes).
 	Undecided bool
@@ -104,6 +111,7 @@ func Lex(input string, d Defects) Result {
 		if pos >= len(rs) {
 			return res
 		}
+		failChar, failEsc = pos, -1
 		kind, end, val, ok, undecided := match(rs, pos, d)
 		if undecided {
 			res.Undecided = true
@@ -111,6 +119,9 @@ func Lex(input string, d Defects) Result {
 		if !ok {
 			res.FailAt = len(res.Tokens)
 			res.FailPos = pos
+			res.FailChar = failChar
+			res.FailEsc = failEsc
+			res.LineOf, res.ColOf = lineOf, colOf
 			return res
 		}
 		res.Tokens = append(res.Tokens, Token{Kind: kind, Start: pos, End: end, Value: val, Line: lineOf[pos], Col: colOf[pos]})
@@ -123,6 +134,14 @@ func Lex(input string, d Defects) Result {
 			}
 		}
 	}
+}
+
+// failChar: set by the matchers on the failing path (see Result.FailChar)
+var failChar, failEsc int
+
+func fail(at int) (string, int, string, bool, bool) {
+	failChar = at
+	return "", 0, "", false, false
 }
 
 func at(rs []rune, i int) rune {
@@ -141,7 +160,10 @@ func match(rs []rune, p int, d Defects) (kind string, end int, val string, ok, u
 		if at(rs, p+1) == '.' && at(rs, p+2) == '.' {
 			return "...", p + 3, "", true, false
 		}
-		return "", 0, "", false, false
+		if at(rs, p+1) == '.' {
+			return fail(p + 2)
+		}
+		return fail(p + 1)
 	case '#':
 		e := p + 1
 		for e < len(rs) && rs[e] != '\n' && rs[e] != '\r' && isSourceChar(rs[e]) {
@@ -175,14 +197,14 @@ func matchNumber(rs []rune, p int, d Defects) (kind string, end int, val string,
 	if at(rs, e) == '0' {
 		e++
 		if isDigit(at(rs, e)) { // IntegerPart: 0 may not be followed by a digit
-			return "", 0, "", false, false
+			return fail(e)
 		}
 	} else if isDigit(at(rs, e)) {
 		for isDigit(at(rs, e)) {
 			e++
 		}
 	} else {
-		return "", 0, "", false, false
+		return fail(e)
 	}
 	kind = "Int"
 	if at(rs, e) == '.' {
@@ -190,7 +212,7 @@ func matchNumber(rs []rune, p int, d Defects) (kind string, end int, val string,
 			if d.NumberLookahead {
 				// the defective lexer still fails here (it expects a digit after '.')
 			}
-			return "", 0, "", false, false
+			return fail(e + 1)
 		}
 		e++
 		for isDigit(at(rs, e)) {
@@ -205,7 +227,7 @@ func matchNumber(rs []rune, p int, d Defects) (kind string, end int, val string,
 		}
 		if !isDigit(at(rs, f)) {
 			// "1e" / "1ex": the exponent indicator is a NameStart, so neither an Int nor a Float may end here.
-			return "", 0, "", false, false
+			return fail(f)
 		}
 		for isDigit(at(rs, f)) {
 			f++
@@ -216,7 +238,7 @@ func matchNumber(rs []rune, p int, d Defects) (kind string, end int, val string,
 	// look-ahead restriction: not Digit (impossible here), not '.', not NameStart
 	if n := at(rs, e); n == '.' || isNameStart(n) {
 		if !d.NumberLookahead {
-			return "", 0, "", false, false
+			return fail(e)
 		}
 	}
 	return kind, e, string(rs[p:e]), true, false
@@ -227,6 +249,7 @@ func matchString(rs []rune, p int) (kind string, end int, val string, ok, undeci
 	e := p + 1
 	for {
 		if e >= len(rs) {
+			failChar = e
 			return "", 0, "", false, undecided
 		}
 		r := rs[e]
@@ -234,6 +257,7 @@ func matchString(rs []rune, p int) (kind string, end int, val string, ok, undeci
 		case r == '"':
 			return "String", e + 1, b.String(), true, undecided
 		case r == '\n' || r == '\r':
+			failChar = e
 			return "", 0, "", false, undecided
 		case r == '\\':
 			n := at(rs, e+1)
@@ -243,6 +267,8 @@ func matchString(rs []rune, p int) (kind string, end int, val string, ok, undeci
 				for k := 2; k < 6; k++ {
 					h := at(rs, e+k)
 					if !isHex(h) {
+						failEsc = e
+						failChar = e + k
 						return "", 0, "", false, undecided
 					}
 					v <<= 4
@@ -279,9 +305,12 @@ func matchString(rs []rune, p int) (kind string, end int, val string, ok, undeci
 				b.WriteByte('\t')
 				e += 2
 			default:
+				failEsc = e
+				failChar = e + 1
 				return "", 0, "", false, undecided
 			}
 		case !isSourceChar(r):
+			failChar = e
 			return "", 0, "", false, undecided
 		default:
 			b.WriteRune(r)
@@ -295,7 +324,7 @@ func matchBlock(rs []rune, p int, d Defects) (kind string, end int, val string, 
 	e := p + 3
 	for {
 		if e >= len(rs) {
-			return "", 0, "", false, false
+			return fail(e)
 		}
 		r := rs[e]
 		if r == '"' && at(rs, e+1) == '"' && at(rs, e+2) == '"' {
@@ -317,7 +346,7 @@ func matchBlock(rs []rune, p int, d Defects) (kind string, end int, val string, 
 			continue
 		}
 		if !isSourceChar(r) {
-			return "", 0, "", false, false
+			return fail(e)
 		}
 		raw = append(raw, r)
 		e++
